@@ -177,8 +177,12 @@ def g_shapes(draw):
     # means up to 1e6 standard deviations from the origin: an expanded quadratic form would cancel there
     p = gen.gmm_params(draw, C, F, allow_zero_floor=True, kmax=gen.choice(draw, [30.0, 1e3, 1e6]))
     n = gen.integer(draw, 1, 24 if gen.big() else 10)
+    if gen.choice(draw, [False, False, True]):
+        n = gen.integer(draw, 11, 26)  # enough rows for a dozen or two of blocks
     X, kind = gen.data_from(draw, p, n)
     chunks = gen.composition(draw, n)
+    if n >= 11 and gen.boolean(draw):
+        chunks = [1] * n if gen.boolean(draw) else [1] * (n - n // 3) + [n // 3]  # many blocks
     return {"p": p, "X": X, "kind": kind, "chunks": chunks}
 
 
